@@ -55,7 +55,7 @@ func boxValid(m *Model) bool {
 }
 
 func runC12Pred(c *Ctx) {
-	inl := []string{"geom.(Envelope).IsEmpty", "geom.fastMin", "geom.fastMax", "geom.(Envelope).IsPoint", "geom.(Envelope).IsLine", "geom.(Envelope).MinMaxXYs"}
+	inl := []string{"geom.(Envelope).IsEmpty", "geom.fastMin", "geom.fastMax", "geom.(Envelope).IsPoint", "geom.(Envelope).IsLine", "geom.(Envelope).MinMaxXYs", "geom.(XY).Sub", "geom.(XY).Add"}
 	v3 := []float64{0, 1, 2}
 	ne := func(m *Model, k string) bool { return m.Bool[k+".nonEmpty"] }
 	n := func(m *Model, k string) float64 { return m.Num[k] }
